@@ -1,5 +1,5 @@
-(* Concrete instances for C13: non-vacuity examples and the witnesses that refute the unguarded
-   "every result completed before the failure stays stored" on the model of the sequential path. *)
+(* Concrete instances for C13: non-vacuity examples, among them the two runs that refuted "every result completed
+   before the failure stays stored" before the repair "keep the results that completed before a function raised". *)
 From Verif Require Import Base.Prelude Base.StrUtil Base.Index Base.NdArr Model.MapSpec Model.MapRun Model.FailingMap.
 From Verif Require Import Proofs.FailingMapFacts Proofs.FailingStoreFacts.
 
@@ -30,20 +30,27 @@ Definition w_inputs (xs : list str) : env :=
 
 Definition w_task_s : task := {| t_f := w_s; t_kw := [(s "c", VS (s "C"))]; t_map := None |}.
 
-(* WITNESS 1 (any storage, here one that dumps in the worker): sequential path, generation [s; g], g raises at
-   its first element: s returned "s(C)" before the failure, yet its output t is absent from the store *)
-Lemma witness_single_dropped :
+(* EXAMPLE 1 (the former witness of the finding C13-seq-generation-single-output-dropped, now repaired):
+   sequential path, generation [s; g], g raises at its first element: s returned "s(C)" before the failure and its
+   output t IS in the store *)
+Lemma example_single_kept :
   exists st tr c,
     map_run_f w_body true true [[w_s; w_g]] (w_inputs [s "b"]) [] = (st, tr, Some (FailUser wexn c))
-    /\ NoDup (flat_map fouts (concat [[w_s; w_g]]))
+    /\ NoDup (flat_map fouts (concat [[w_s; w_g]])) /\ NoDup (map fname (concat [[w_s; w_g]]))
     /\ (exists rs, In rs tr /\ In (w_task_s, TDone [VS (s "s(C)")]) rs)
-    /\ ~ holds (m_store st) w_task_s [VS (s "s(C)")].
+    /\ holds (m_store st) w_task_s [VS (s "s(C)")].
 Proof.
-  eexists. eexists. eexists. split; [vm_compute; reflexivity|]. split.
-  - simpl. repeat constructor; simpl; intuition discriminate.
-  - split.
-    + eexists. split; [left; reflexivity|]. left. reflexivity.
-    + intro Hh. specialize (Hh 0 (s "t") (VS (s "s(C)")) eq_refl eq_refl). vm_compute in Hh. discriminate.
+  destruct (map_run_f w_body true true [[w_s; w_g]] (w_inputs [s "b"]) []) as [[st tr] fl] eqn:E.
+  assert (E0 := E). vm_compute in E0. injection E0 as <- <- <-.
+  assert (Hnd : NoDup (flat_map fouts (concat [[w_s; w_g]]))).
+  { simpl. repeat constructor; simpl; intuition discriminate. }
+  assert (Hnn : NoDup (map fname (concat [[w_s; w_g]]))).
+  { simpl. repeat constructor; simpl; intuition discriminate. }
+  eexists. eexists. eexists. split; [exact E|]. split; [exact Hnd|]. split; [exact Hnn|]. split.
+  - eexists. split; [left; reflexivity|]. left. reflexivity.
+  - eapply (map_prefix_results_kept_seq w_body true _ _ _ _ _ _ E); [right; eauto|exact Hnd|exact Hnn| |].
+    + left. reflexivity.
+    + left. reflexivity.
 Qed.
 
 Definition w_task_g (kw : env) (n i : nat) : task :=
@@ -51,24 +58,28 @@ Definition w_task_g (kw : env) (n i : nat) : task :=
      t_map := Some ({| ins := [{| aname := s "x"; axes := [Some (s "i")] |}];
                        outs := [{| aname := s "z"; axes := [Some (s "i")] |}] |}, [n], [true], i) |}.
 
-(* WITNESS 2 (storage without dump_in_subprocess = 'dict'): sequential path, g over x = [a, b] raises at b:
-   g(a) returned before the failure, yet no element of z is in the store *)
-Lemma witness_dict_dropped :
+(* EXAMPLE 2 (the former witness of C13-seq-generation-dict-elements-dropped, now repaired): storage without
+   dump_in_subprocess ('dict'), sequential path, g over x = [a, b] raises at b: the element g(a) IS in the store *)
+Lemma example_dict_kept :
   exists st tr c t,
     map_run_f w_body false true [[w_g]] [(s "x", VA {| shp := [2]; dat := [s "a"; s "b"] |})] [] =
       (st, tr, Some (FailUser wexn c))
     /\ (exists rs, In rs tr /\ In (t, TDone [VS (s "g(a)")]) rs) /\ t_map t <> None
-    /\ ~ holds (m_store st) t [VS (s "g(a)")].
+    /\ holds (m_store st) t [VS (s "g(a)")].
 Proof.
+  destruct (map_run_f w_body false true [[w_g]] [(s "x", VA {| shp := [2]; dat := [s "a"; s "b"] |})] [])
+    as [[st tr] fl] eqn:E.
+  assert (E0 := E). vm_compute in E0. injection E0 as <- <- <-.
   eexists. eexists. eexists.
   exists (w_task_g [(s "x", VA {| shp := [2]; dat := [s "a"; s "b"] |})] 2 0).
-  split; [vm_compute; reflexivity|]. split.
+  split; [exact E|]. split.
   - eexists. split; [left; reflexivity|]. left. reflexivity.
   - split; [discriminate|].
-    intro Hh. specialize (Hh 0 (s "z") (VS (s "g(a)")) eq_refl eq_refl). simpl in Hh.
-    destruct Hh as (sh' & mask' & st0 & key & l & Hg & Hk & Hd & Hi).
-    vm_compute in Hg. inversion Hg; subst. vm_compute in Hk. inversion Hk; subst.
-    vm_compute in Hd. inversion Hd; subst. specialize (Hi _ (or_introl eq_refl)). destruct Hi.
+    eapply (map_prefix_results_kept_seq w_body false _ _ _ _ _ _ E); [right; eauto| | | |].
+    + simpl. repeat constructor; simpl; intuition discriminate.
+    + simpl. repeat constructor; simpl; intuition discriminate.
+    + left. reflexivity.
+    + left. reflexivity.
 Qed.
 
 (* NON-VACUITY of the guarded theorem: the same run on a storage that dumps in the worker keeps g(a) *)
